@@ -24,3 +24,9 @@ func VerifWebHandlers(p *profile.Profile, ui plugin.UI, obj plugin.ObjTool) (map
 	err := serveWebInterface("localhost:1234", p, o, true)
 	return hs, err
 }
+
+// VerifAddLabelNodes exposes addLabelNodes (-tagroot / -tagleaf pseudo frames: functions with
+// neither mapping nor address, named after label values).
+func VerifAddLabelNodes(p *profile.Profile, rootKeys, leafKeys []string, outputUnit string) (bool, bool) {
+	return addLabelNodes(p, rootKeys, leafKeys, outputUnit)
+}
